@@ -27,8 +27,16 @@ pub fn check_model<T: Sc>(rng: &mut Rng, spec: &CodedSpec, nalpha: usize) -> (u6
     if model.parameters() != spec.names.as_slice() {
         return (1, nontrivial, Some(format!("parameters() reports {:?}, declared {:?}", model.parameters(), spec.names)));
     }
+    let mut prev = a0.clone();
     for step in 0..=nalpha {
-        let alpha: Vec<T> = if step == 0 { a0.iter().map(|v| T::of(*v)).collect() } else { draw(rng).iter().map(|v| T::of(*v)).collect() };
+        let alpha: Vec<T> = if step == 0 {
+            a0.iter().map(|v| T::of(*v)).collect()
+        } else {
+            let fresh = draw(rng);
+            let a = crate::gen::next_alpha(rng, &prev, fresh);
+            prev = a.clone();
+            a.iter().map(|v| T::of(*v)).collect()
+        };
         if step > 0 {
             if let Err(e) = model.set_params(DVector::from_vec(alpha.clone())) {
                 return (obs, nontrivial, Some(format!("set_params rejected a vector of the right length: {e}")));
@@ -94,7 +102,7 @@ pub fn check_model<T: Sc>(rng: &mut Rng, spec: &CodedSpec, nalpha: usize) -> (u6
 fn case(rng: &mut Rng, case: u64, out: &mut CaseOut) {
     let stream = "routing";
     let spec = random_coded(rng, 10, 9);
-    let r = if case % 3 == 0 { check_model::<f32>(rng, &spec, 3) } else { check_model::<f64>(rng, &spec, 3) };
+    let r = if case % 3 == 0 { check_model::<f32>(rng, &spec, 5) } else { check_model::<f64>(rng, &spec, 5) };
     out.evals += r.0;
     out.seen("model_parameter_count", format!("{}", spec.names.len()));
     for f in &spec.funcs {
